@@ -1,8 +1,11 @@
 (* C07 — Variable paths and literals denote the right value or fail loudly.
    Statements only; proofs in proofs/FindProofs.v (and StackProofs.v, DecimalProofs.v).
-   The grammar's literal rules and parse_literal are tied to these statements by the
-   correspondence check (tools/props/c07.py): the numeral, quoted text or keyword is what the
-   implementation reads, the value is what the model reads. *)
+   Integer literals are followed from the text to the value: the IntegerLiteral rule of the generated
+   grammar is characterised exactly, the numeral of every integer is one Literal > IntegerLiteral pair
+   spanning exactly the numeral (proofs/LitProofs.v), and that text reads back as the integer.  The
+   other literal kinds (floats through the f64 parser oracle, strings, keywords) are tied to these
+   statements by the correspondence check (tools/props/c07.py). *)
+From LV Require Import Peg Grammar LitProofs.
 From LV Require Import Base Value Stack Eval StackProofs FindProofs.
 
 (* ---- array elements: zero-based, negative indices count from the end ---- *)
@@ -118,6 +121,27 @@ Example c07_nonvacuous :
    | (r, _, k) => r = OFail EUnknownIndex /\ acc k = [60%N] end).
 Proof. vm_compute. repeat split; reflexivity. Qed.
 
+(* ---- integer literals, from the text of the template to the value ---- *)
+(* IntegerLiteral = @{ ("+" | "-")? ~ ASCII_DIGIT+ }: an optional sign and the longest run of digits, or no match *)
+Theorem integer_literal_rule : forall at_ s pos fuel, at_ <> Atomic -> 10 + length s <= fuel ->
+  ev liquid_grammar liquid_ws fuel at_ false (PRef r_IntegerLiteral) s pos =
+  Some (let (sg, s1) := strip_sign s in
+        match span_dig s1 with
+        | ([], _) => None
+        | (ds, r) => Some (r, pos + sg + length ds, [mkTok r_IntegerLiteral pos (pos + sg + length ds)])
+        end).
+Proof. exact LitProofs.integer_rule_exact. Qed.
+(* the numeral of any integer, followed by anything that is neither a digit nor a fraction, is read by the
+   Literal rule as an IntegerLiteral over exactly the numeral ... *)
+Theorem numeral_is_a_literal : forall z rest at_ pos fuel, no_digit_next rest -> no_fraction_next rest -> at_ <> Atomic ->
+  24 + length (show_Z z ++ rest) <= fuel ->
+  ev liquid_grammar liquid_ws fuel at_ false (PRef r_Literal) (show_Z z ++ rest) pos =
+  Some (Some (rest, pos + length (show_Z z),
+              [mkTok r_Literal pos (pos + length (show_Z z)); mkTok r_IntegerLiteral pos (pos + length (show_Z z))])).
+Proof. exact LitProofs.numeral_is_a_literal. Qed.
+(* ... and (integer_numeral_roundtrip above) that text is converted to z when z is in the 64-bit range, and
+   rejected otherwise (integer_conversion_in_range) — never wrapped *)
+
 Print Assumptions array_index_spec.
 Print Assumptions array_index_nonneg.
 Print Assumptions array_index_negative.
@@ -146,3 +170,5 @@ Print Assumptions literal_prints.
 Print Assumptions integer_numeral_roundtrip.
 Print Assumptions integer_conversion_in_range.
 Print Assumptions string_bool_nil_literals.
+Print Assumptions integer_literal_rule.
+Print Assumptions numeral_is_a_literal.
